@@ -15,7 +15,13 @@ the families of Lib/CacheFam.lean, one cache per function; observers `*.Fam.spec
 async_call, call_with_context, C.m(obj, ..), (c) what the decorator wraps (@asynq(), @asynq(asyncio_fn=..), a function whose
 .asyncio() was used before, @deduplicate(), @async_proxy()), (d) how the decorator arguments are spelled, (e) bodies that
 block on asynq's DebugBatchItem, falsy values, debug options switched in mid-history, (deep) copies of instances; plus a
-family of self-recursive cached functions judged by a direct expectation of the driver."""
+family of self-recursive cached functions judged by a direct expectation of the driver.
+
+Round 5 (open signatures): 10% of the generated functions / methods collect further KEYWORD arguments (**opts; 60% of them
+*rest too) and their calls pass items (name, value) either as a keyword or - into *rest - as the 2-tuple (name, value), the
+very shape qcore's get_args_tuple gives to a keyword it does not know: f(1, x=2) and f(1, ("x", 2)) are different calls.
+Model Lib/CacheKw.lean (`openKey`: the PAIR built by tools._args_cache_key; normalised arguments `openNorm`), theorems
+Theorems/C13c.lean, judged by the same observers `Alru.spec` / `PerInst.spec`."""
 import hashlib
 import itertools
 import json
@@ -23,7 +29,7 @@ import random
 
 PID = "C13"
 LEVEL = "proof"
-LEAN_MODULES = ["AsynqModel.Theorems.C13", "AsynqModel.Theorems.C13b"]
+LEAN_MODULES = ["AsynqModel.Theorems.C13", "AsynqModel.Theorems.C13b", "AsynqModel.Theorems.C13c"]
 # the claimed theorems (audited with #print axioms by the proof gate); one line each in MANIFEST.json / DESIGN.md 5.
 # HEADLINE: statements about alru_cache / acached_per_instance / alazy_constant with content of their own.
 HEADLINE = [
@@ -48,6 +54,14 @@ HEADLINE = [
     "AsynqModel.Cache.C13_per_instance_shared_decorator_refines_partial",
     "AsynqModel.Cache.C13_per_instance_family_leak_counterexample",
     "AsynqModel.Cache.C13_lazy_shared_decorator_refines",
+    # open signatures (Theorems/C13c.lean): functions with **opts, positional values that are (name, value) tuples
+    "AsynqModel.Cache.C13_open_key_normal",
+    "AsynqModel.Cache.C13_open_refkey_injective",
+    "AsynqModel.Cache.C13_open_key_injective",
+    "AsynqModel.Cache.C13_alru_open_signature_refines",
+    "AsynqModel.Cache.C13_per_instance_open_signature_refines_partial",
+    "AsynqModel.Cache.C13_open_flat_key_counterexample",
+    "AsynqModel.Cache.C13_open_callOK_needed",
     # every hypothesis of the theorems above is needed (machine-checked witnesses on the model)
     "AsynqModel.Cache.C13_alru_callOK_needed",
     "AsynqModel.Cache.C13_per_instance_callOK_needed",
@@ -115,6 +129,14 @@ RULE = ("three streams. alru: signature (0-3 positional-or-keyword parameters wi
         "for each of the three ways of having an asyncio implementation; sizes: alru_cache() (default maxsize 128) and "
         "maxsize 16 filled to the brim (+1 function under the same decorator object); self-recursive fib under alru_cache "
         "maxsize 1-5 and acached_per_instance (direct expectation). "
+        "Open signatures: 10% of the generated functions / methods (default key only) also collect further keyword arguments "
+        "(**opts; 60% of those *rest as well); 70% of their calls pass 1-2 items out of x=2 / z=1 / x=1, each as a keyword "
+        "(collected by **opts) or - if the function has *rest, 50% - as the 2-tuple (name, value) in *rest; the bodies report "
+        "their normalised arguments (named values, len(rest), rest, **opts items by name). Exhaustive cores: every 3-call "
+        "history over 9 spellings of f(a, *rest, **opts) (f(1, x=2) / f(1, ('x', 2)) / f(1, ('x', 2), x=2) / f(x=2, a=1) / "
+        "f(1, z=1, x=2) / f(1, ('x', 2), ('z', 1)) ..) under alru_cache and acached_per_instance, over 7 spellings of "
+        "g(*rest, **opts) and 8 of h(a, b=0, *, k=0, **opts); every ordered pair of 6 spellings of f(a, *rest, k=0, **opts) "
+        "under @deduplicate() and with asyncio_fn= through yielded / .asynq() / .asyncio() calls. "
         "non-trivial = at least 3 calls with at least one reference hit and one reference miss; distinct by case hash")
 TRUSTED = [
     "hand-written Lean model AsynqModel.Lib.Cache / Lib.CacheFam tied to the code by this differential run only",
@@ -139,22 +161,22 @@ ASSUMPTIONS = [
     "there); errors are Exception subclasses, yielded values plain (outside C15's open findings)",
     "values are tuples (10% of them a falsy tuple subclass); a body that returns None is not generated (the harness "
     "identifies a returned value by identity)",
-    "wrapped functions may have *rest (modelled: Sig.varargs) but have no **kwargs and no positional-only parameters; "
-    "argument values are hashable and compared by ==. For a function with *rest AND keyword-only parameters the property "
-    "is FALSE of both decorators as they are: a call whose positional arguments overflow into *rest gets the key of "
-    "another VALID call (f(1, 2) and f(1, k=2) share an entry for def f(a, *rest, k=0); the keyword-only argument of an "
-    "overflowing call is ignored altogether) - C13_alru_varargs_counterexample, C13_per_instance_varargs_counterexample, "
-    "hypothesis alruVarargsOK / perInstVarargsOK of the `_partial` theorems, reported by the check as an open finding",
-    "with **kwargs or positional-only parameters qcore's get_args_tuple has further collisions of the same family, all "
-    "of them between a valid call and a call Python cannot bind (g(1, 2) cached, then g(a=1, b=2) for def g(a, /, b=0) is "
-    "answered from the cache instead of raising TypeError; h(1, x=2) then h(1, ('x', 2)) for def h(a, **kw)): the class of "
-    "the next item, not generated",
+    "wrapped functions may have *rest (modelled: Sig.varargs) and **opts (modelled: Lib/CacheKw.lean, default key only) but "
+    "no positional-only parameters; argument values are hashable and compared by ==: small integers, and - positional "
+    "arguments of functions with **opts only - 2-tuples (name, small integer); the values of keywords are small integers",
+    "with positional-only parameters qcore's get_args_tuple has further collisions, all of them between a valid call and "
+    "a call Python cannot bind (g(1, 2) cached, then g(a=1, b=2) for def g(a, /, b=0) is answered from the cache instead of "
+    "raising TypeError; likewise h(1, ('x', 2)) after h(1, x=2) for def h(a, **kw) WITHOUT *rest): the class of the next "
+    "item, not generated",
+    "per-instance FAMILIES (several methods under one decorator object) that contain a method with **opts: the single-"
+    "method theorem C13_per_instance_open_signature_refines_partial speaks about each method alone, no family theorem "
+    "does (alru_cache families: C13_alru_family_projection reduces them to the single-function theorem)",
     "calls Python cannot bind are covered when an argument is missing or a keyword is unexpected (TypeError, nothing "
     "runs). A call that passes too many positionals (to a function without *rest) or one parameter twice is OUTSIDE the property: it has no "
     "normalised arguments, and qcore's get_args_tuple maps it onto the key of a valid call, so it is answered from the "
     "cache when that call is cached and raises TypeError when it is not (reproduced on the real code; hypothesis "
     "alruCallOK / perInstCallOK of the refinement theorems, needed: C13_alru_callOK_needed, "
-    "C13_per_instance_callOK_needed). Such calls are generated, but only the correspondence is judged on their cases",
+    "C13_per_instance_callOK_needed, C13_open_callOK_needed). Such calls are generated, but only the correspondence is judged on their cases",
     "alru_cache(maxsize) with maxsize >= 1: qcore's LRUCache constructor rejects anything else (hypothesis hcap)",
     "scripted clock starts >= 1 and never goes backwards (refresh_time == 0 is alazy_constant's 'never computed' mark; "
     "needed: C13_lazy_clock_pos_needed)",
@@ -166,7 +188,19 @@ ASSUMPTIONS = [
     "refers to ANOTHER instance of the class, instances without __dict__) are not generated",
 ]
 
-NAMES = {"a": 1, "b": 2, "c": 3, "k": 4, "m": 5, "q": 6, "self": 9}   # numeric order = alphabetical order
+NAMES = {"a": 1, "b": 2, "c": 3, "k": 4, "m": 5, "q": 6, "self": 9, "x": 10, "z": 11}   # numeric order = alphabetical order
+# keywords only **opts can take, and the values they come with: a call passes such an item as a keyword (x=2) or - into
+# *rest - as the 2-tuple ("x", 2), the shape qcore's get_args_tuple gives to a keyword it does not know
+EXTRAS = [["x", 2], ["z", 1], ["x", 1]]
+
+
+def _tok(v):
+    """value token on the wire: a plain value, or 1000 + 100 * name + value for the 2-tuple (name, value)"""
+    if isinstance(v, (list, tuple)):
+        return 1000 + 100 * NAMES.get(v[0], 99) + v[1]
+    return v
+
+
 KEYSPECS = ["default", "const", "sumParity", "raw"]
 UNKNOWN = 999999
 
@@ -191,6 +225,12 @@ def gen_sig(rng, method=False, allow_empty=True):
         sig["varargs"] = 1
         if rng.random() < 0.5 and not kwonly:
             sig["kwonly"], sig["kwd"] = ["k"], [["k", rng.choice([0, 1, 3])]] if rng.random() < 0.7 else []
+    if rng.random() < 0.10:
+        # def f(a, b=0, *rest, k=0, **opts): an OPEN signature - it collects further keyword arguments (60% of them
+        # collect further positional arguments as well)
+        sig["varkw"] = 1
+        if rng.random() < 0.6:
+            sig["varargs"] = 1
     return sig
 
 
@@ -327,7 +367,22 @@ def gen_call(rng, sig, pool, inst=0, allpos=False, malformed_rate=0.05, lazy=Fal
     rest = None
     if sig.get("varargs") and rng.random() < 0.45:
         rest = rng.choice([[0], [1], [2], [3], [1, 2], [0, 0]])      # positional arguments that overflow into *rest
+    extra_kw = []
+    if sig.get("varkw") and rng.random() < 0.7:
+        # 1-2 items (name, value) with distinct names: each goes into **opts as a keyword or - if the function has
+        # *rest - into *rest as the tuple (name, value); f(1, x=2) and f(1, ("x", 2)) are DIFFERENT calls
+        items = [rng.choice(EXTRAS)]
+        if rng.random() < 0.3:
+            items += [e for e in [rng.choice(EXTRAS)] if e[0] != items[0][0]]
+        for e in items:
+            if sig.get("varargs") and rng.random() < 0.5:
+                rest = (rest if rest is not None and rng.random() < 0.3 else []) + [list(e)]
+            else:
+                extra_kw.append(list(e))
     args, kw = spell(rng, sig, b, allpos, rest)
+    if extra_kw:
+        kw = kw + extra_kw
+        rng.shuffle(kw)
     if rng.random() < malformed_rate:
         args, kw = malform(rng, sig, args, kw)
     elif unbindable_rate and rng.random() < unbindable_rate:
@@ -403,6 +458,8 @@ def gen_alru(rng, size=None):
 
     def mk_sig():
         sig = gen_sig(rng)
+        if allpos or keyspec != "default":
+            sig.pop("varkw", None)            # **opts: with the default key only (the custom keys sum / sort raw values)
         if allpos:
             sig["kwonly"], sig["kwd"] = [], []
             if not sig["args"]:
@@ -538,7 +595,7 @@ def exhaustive_core(tier):
             if sum(1 for o in h if o["op"] == "call") < 2:
                 continue
             cases.append({"cache": "lazy", "ttl": ttl, "t0": 1, "ops": [dict(o) for o in h]})
-    return cases + varargs_core() + family_core(tier) + asyncio_core(tier) + big_core() + recur_core(tier)
+    return cases + varargs_core() + open_core() + family_core(tier) + asyncio_core(tier) + big_core() + recur_core(tier)
 
 
 def varargs_core():
@@ -556,6 +613,42 @@ def varargs_core():
     gsp = [([1], []), ([1, 2], []), ([1, 2, 3], []), ([], [["a", 1]]), ([2], [])]
     for h in itertools.product(gsp, repeat=3):
         cases.append({"cache": "alru", "maxsize": 2, "keyspec": "default", "sig": gsig, "ops": [_call(a, k) for a, k in h]})
+    return cases
+
+
+def open_core():
+    """OPEN signatures (**opts) and positional values that are (name, value) tuples: every 3-call history over the
+    spellings of f(a, *rest, **opts) / m(self, a, *rest, **opts) (f(1, x=2) / f(1, ("x", 2)) / f(1, ("x", 2), x=2) .. are
+    all different calls), of g(*rest, **opts) - the signature of a generic wrapper - and of h(a, b=0, **opts) (no *rest);
+    one mixed history per pair of f-spellings under @deduplicate(), asyncio_fn= and through .asynq()"""
+    cases = []
+    X = ["x", 2]
+    Z = ["z", 1]
+    fsig = {"args": ["a"], "defaults": [], "kwonly": [], "kwd": [], "varargs": 1, "varkw": 1}
+    fmsig = dict(fsig, args=["self", "a"])
+    fsp = [([1], []), ([1], [X]), ([1, X], []), ([1, X], [X]), ([1, 2], []), ([], [X, ["a", 1]]), ([1], [Z, X]),
+           ([1, X, Z], []), ([1, Z], [X])]
+    for h in itertools.product(fsp, repeat=3):
+        if len(set(json.dumps(x) for x in h)) < 2:
+            continue
+        cases.append({"cache": "alru", "maxsize": 2, "keyspec": "default", "sig": fsig, "ops": [_call(a, k) for a, k in h]})
+        cases.append({"cache": "perinst", "sig": fmsig, "ops": [_call(a, k, inst=i // 2) for i, (a, k) in enumerate(h)]})
+    gsig = {"args": [], "defaults": [], "kwonly": [], "kwd": [], "varargs": 1, "varkw": 1}
+    gsp = [([], []), ([], [X]), ([X], []), ([1], []), ([1], [X]), ([1, X], []), ([X], [X])]
+    hsig = {"args": ["a", "b"], "defaults": [0], "kwonly": ["k"], "kwd": [["k", 0]], "varkw": 1}
+    hsp = [([1], []), ([1], [X]), ([1, 0], [X]), ([], [["b", 0], X, ["a", 1]]), ([1], [["b", 2]]), ([1], [["x", 0]]),
+           ([1], [["k", 2], X]), ([X], [])]
+    for sig, sp in ((gsig, gsp), (hsig, hsp)):
+        for h in itertools.product(sp, repeat=3):
+            if len(set(json.dumps(x) for x in h)) < 2:
+                continue
+            cases.append({"cache": "alru", "maxsize": 2, "keyspec": "default", "sig": sig, "ops": [_call(a, k) for a, k in h]})
+    ksig = dict(fsig, kwonly=["k"], kwd=[["k", 0]])
+    for (a1, k1), (a2, k2) in itertools.permutations(fsp[:6], 2):
+        ops = [_call(a1, k1, via="inner", blocks=1), _call(a2, k2, via="asynq"), _call(a1, k1), _call(a2, k2, via="inner")]
+        cases.append({"cache": "alru", "maxsize": 4, "keyspec": "default", "sig": ksig, "wrap": "dedup", "ops": ops})
+        cases.append({"cache": "alru", "maxsize": 4, "keyspec": "default", "sig": ksig, "native": 1,
+                      "ops": [dict(o, via="asyncio" if i % 2 else "sync") for i, o in enumerate(ops)]})
     return cases
 
 
@@ -774,12 +867,12 @@ class UserErr(Exception):
 
 
 def _sig_wire(sig):
-    return "((%s) (%s) (%s) (%s) %d)" % (
+    return "((%s) (%s) (%s) (%s) %s)" % (
         " ".join(str(NAMES[a]) for a in sig["args"]),
         " ".join(str(d) for d in sig["defaults"]),
         " ".join(str(NAMES[k]) for k in sig["kwonly"]),
         " ".join("(%d %d)" % (NAMES[k], v) for k, v in sig["kwd"]),
-        1 if sig.get("varargs") else 0,
+        ("1" if sig.get("varargs") else "0") + (" 1" if sig.get("varkw") else ""),
     )
 
 
@@ -798,6 +891,8 @@ def _params_source(sig):
         kwd = dict((k, v) for k, v in sig["kwd"])
         for n in sig["kwonly"]:
             params.append("%s=%d" % (n, kwd[n]) if n in kwd else n)
+    if sig.get("varkw"):
+        params.append("**opts")
     return ", ".join(params)
 
 
@@ -810,7 +905,12 @@ def _body_source(sig, f=0):
     star = ["*rest"] if sig.get("varargs") else []
     received = [a for a in args if a != "self"] + list(sig["kwonly"]) + star     # (a, b, k, *rest): named first, flattened
     recv = "(%s)%s" % ("".join(r + ", " for r in received), ", self" if "self" in args else "")
-    fwd = ", ".join(list(args) + star + ["%s=%s" % (k, k) for k in sig["kwonly"]])
+    fwd = ", ".join(list(args) + star + ["%s=%s" % (k, k) for k in sig["kwonly"]] + (["**opts"] if sig.get("varkw") else []))
+    if sig.get("varkw"):
+        # an open signature reports its normalised arguments: named values, len(rest), rest, the **opts items by name
+        named = [a for a in args if a != "self"] + list(sig["kwonly"])
+        recv = "_norm((%s), %s, opts)%s" % ("".join(r + ", " for r in named), "rest" if star else "()",
+                                            ", self" if "self" in args else "")
     return ("def body(%s):\n    return (yield from _impl(%d, %s))\n"
             "async def native(%s):\n    return await _aimpl(%d, %s)\n"
             "def proxy(%s):\n    return _inner.asynq(%s)\n") % (params, f, recv, params, f, recv, params, fwd)
@@ -984,6 +1084,12 @@ def run_case(case):
             raise UserErr(stamp)
         return _finish(f, stamp, s, received, owner)
 
+    def _norm(named, rest, opts):
+        out = [_tok(v) for v in named] + [len(rest)] + [_tok(v) for v in rest]
+        for k in sorted(opts, key=lambda n: NAMES.get(n, 99)):
+            out += [NAMES.get(k, 99), _tok(opts[k])]
+        return tuple(out)
+
     key_fns = {
         "default": None,
         "const": lambda args, kwargs: (),
@@ -1022,7 +1128,7 @@ def run_case(case):
             return tools.alru_cache(maxsize=ms, key_fn=kf)
         one = mkdeco() if one_deco else None
         for f, sig in enumerate(sigs):
-            ns = {"_impl": _impl, "_aimpl": _aimpl}
+            ns = {"_impl": _impl, "_aimpl": _aimpl, "_norm": _norm}
             exec(_body_source(sig, f), ns)
             fns.append((one or mkdeco())(wrapped(ns)))
         hdr = "alru %d %s %s" % (case["maxsize"], case["keyspec"], " ".join(_sig_wire(sig) for sig in sigs))
@@ -1030,7 +1136,7 @@ def run_case(case):
         one = tools.acached_per_instance() if one_deco else None
         methods = {}
         for f, sig in enumerate(sigs):
-            ns = {"_impl": _impl, "_aimpl": _aimpl}
+            ns = {"_impl": _impl, "_aimpl": _aimpl, "_norm": _norm}
             exec(_body_source(sig, f), ns)
             methods["m%d" % f] = (one or tools.acached_per_instance())(wrapped(ns))
         cls = type("C", (object,), methods)
@@ -1151,7 +1257,7 @@ def run_case(case):
             if name == "call":
                 ncalls += 1
                 script[0] = op
-                args = list(op["args"])
+                args = [tuple(a) if isinstance(a, list) else a for a in op["args"]]     # ["x", 2]: the value ("x", 2)
                 kw = dict((k, v) for k, v in op["kw"])
                 via = op["via"]
                 if kind == "perinst":
@@ -1185,7 +1291,7 @@ def run_case(case):
                 elif res.startswith("(ok"):
                     hits += 1
                 wop = "(call %d (%s) (%s) %d %d %d %d)" % (
-                    op["inst"], " ".join(str(x) for x in op["args"]),
+                    op["inst"], " ".join(str(_tok(x)) for x in op["args"]),
                     " ".join("(%d %d)" % (NAMES[k], v) for k, v in op["kw"]), 1 if op["raises"] else 0, op.get("dur", 0),
                     1 if (op.get("selfref") and kind == "perinst") else 0, f)
                 feats.append("via=" + op["via"])
@@ -1210,6 +1316,13 @@ def run_case(case):
                     if any(k in sig["kwonly"] for k, _ in op["kw"]):
                         feats.append("spelling=keyword-only")
                     names_pos = [a for a in sig["args"] if a != "self"]
+                    if sig.get("varkw"):
+                        feats.append("signature-with-**opts" + ("(+*rest)" if sig.get("varargs") else ""))
+                        pnames = names_pos + list(sig["kwonly"])
+                        if any(k not in pnames for k, _ in op["kw"]):
+                            feats.append("keyword-collected-by-**opts")
+                    if any(isinstance(x, list) for x in op["args"]):
+                        feats.append("positional-value-is-a-(name,value)-tuple")
                     if sig.get("varargs"):
                         feats.append("signature-with-*rest")
                         if len(op["args"]) > len(names_pos):
